@@ -133,8 +133,15 @@ func VerifH_C10_WrapThenExtract() {
 func VerifH_C10_ReplaceRoots() {
 	root := vCidID("root")
 	secs := vTwoSections()
-	payload := vPayload(vHeaderV1(root), secs)
-	hdrLen := len(vHeaderV1(root))
+	// the stored header is the canonical encoding, or one of two encodings that readers accept and
+	// that are one byte longer (version as a two-byte integer; roots as an indefinite-length array)
+	hdrKind := vChoose("headerEncoding", 3)
+	hdr := vHeaderV1Variant(root, hdrKind)
+	if hdrKind == 0 {
+		vAssert("hand-encoding-is-the-canonical-one", vBytesEq(hdr, vHeaderV1(root)))
+	}
+	payload := vPayload(hdr, secs)
+	hdrLen := len(hdr)
 	base := 0
 	file := payload
 	if vChoose("v2", 2) == 1 {
@@ -149,18 +156,22 @@ func VerifH_C10_ReplaceRoots() {
 	switch vChoose("newRoots", 3) {
 	case 0:
 		newRoots = []cid.Cid{vCidID("newRoot")}
-		sameSize = true
+		sameSize = hdrKind == 0 // the new (canonical) header is one byte shorter than a non-canonical stored one
 	case 1:
 		newRoots = []cid.Cid{vCidID("newRoot"), vCidID("newRoot2")}
 	case 2:
 		newRoots = []cid.Cid{vCidT("longerRoot")}
 	}
+	// the replacement is the canonical encoding of the new roots; it goes in iff it is exactly as
+	// long as the stored header frame (whatever the encoding of that one)
+	newHdr := vHeaderV1(newRoots...)
+	vAssert("size-classes-as-intended", !sameSize || len(newHdr) == hdrLen)
+	sameSize = len(newHdr) == hdrLen
 	err := ReplaceRootsInFile(path, newRoots)
 	got, ok := vFSReadFile(path)
 	vAssert("file-readable", ok && len(got) == len(file))
 	if sameSize {
 		vAssert("replaced-ok", err == nil)
-		newHdr := vHeaderV1(newRoots...)
 		vAssert("new-header-frame", len(newHdr) == hdrLen && vBytesEq(got[base:base+hdrLen], newHdr))
 		vAssert("before-header-untouched", vBytesEq(got[:base], file[:base]))
 		vAssert("after-header-untouched", vBytesEq(got[base+hdrLen:], file[base+hdrLen:]))
@@ -169,5 +180,34 @@ func VerifH_C10_ReplaceRoots() {
 		vAssert("refused", err != nil)
 		vAssert("file-untouched", vBytesEq(got, file))
 		vCover("refused-size-mismatch", true)
+		vCover("refused-non-canonical-stored-header", hdrKind != 0)
 	}
+}
+
+// vHeaderV1Variant hand-encodes the CARv1 header frame {roots: [root], version: 1}.
+func vHeaderV1Variant(root cid.Cid, kind int) []byte {
+	cb := root.Bytes()
+	body := []byte{0xa2, 0x65, 'r', 'o', 'o', 't', 's'}
+	if kind == 2 {
+		body = append(body, 0x9f) // indefinite-length array
+	} else {
+		body = append(body, 0x81)
+	}
+	body = append(body, 0xd8, 0x2a)
+	if 1+len(cb) < 24 {
+		body = append(body, 0x40+byte(1+len(cb)), 0x00)
+	} else {
+		body = append(body, 0x58, byte(1+len(cb)), 0x00)
+	}
+	body = append(body, cb...)
+	if kind == 2 {
+		body = append(body, 0xff)
+	}
+	body = append(body, 0x67, 'v', 'e', 'r', 's', 'i', 'o', 'n')
+	if kind == 1 {
+		body = append(body, 0x18, 0x01) // 1 as a two-byte integer
+	} else {
+		body = append(body, 0x01)
+	}
+	return append([]byte{byte(len(body))}, body...)
 }
